@@ -157,6 +157,9 @@ type Spec struct {
 	Accounts []GenesisAccount
 	Mempool  *cfg.MempoolConfig
 	Time     uint64
+	// UpgradeSigner, if set, is registered as the (only, sufficient) multi-signature signer for contract upgrades: the
+	// record a committed MultiSignAccountTx leaves in the tx database (libs/txmgr saveMultiSignersInfo).
+	UpgradeSigner *Acct
 	// Candidates are elected validator candidates present from genesis: written into the candidates contract's storage
 	// (the layout state.GetAllCandidates / UpdateCandidateScore read) and into the genesis TxsResult.
 	Candidates []CandidateSeed
@@ -210,6 +213,14 @@ func Genesis(spec *Spec, dbs *DBSet) error {
 	}
 	blockStore := bc.NewBlockStore(dbs.Block)
 	blockStore.SaveInitHeight(types.BlockHeightZero)
+	if spec.UpgradeSigner != nil {
+		info := &types.SignersInfo{MinSignerPower: 1, Signers: []*types.SignerEntry{{Power: 1, Addr: spec.UpgradeSigner.Addr}}}
+		v, err := ser.EncodeToBytes(info)
+		if err != nil {
+			return err
+		}
+		dbs.Tx.Set([]byte(types.DBcontractCreateKey), v)
+	}
 	accts := append([]GenesisAccount(nil), spec.Accounts...)
 	if len(spec.Candidates) > 0 {
 		accts = append(accts, GenesisAccount{Addr: cfg.ContractCandidatesAddr, Nonce: 1, Storage: candidateSlots(spec.Candidates)})
